@@ -636,7 +636,44 @@ def t04_fmask(run, fx):
         run.ok(rule, "%d flags, %d rows, one row per flag, tags spelled as the flags" % (len(flags), len(rows)))
 
 
+def t04_cond(run, fx):
+    rule = "T04-COND"
+    run.rule(rule, "feature variations: a condition holds for filterRangeMinValue <= coordinate <= filterRangeMaxValue, both ends included "
+                   "(OpenType, Condition Table Format 1) - ConditionTable::matches tests the coordinate with an inclusive range or with <= / >=, "
+                   "never with a half-open range or a strict comparison against a filter range bound")
+    b = fx.body("layout::ConditionTable::matches")
+    if b is None:
+        return run.anchor_missing(rule, "layout::ConditionTable::matches")
+    import guards
+    prov = sym.Prov(b)
+    bad, good = [], 0
+    for bi, t in b.calls():
+        p = t["callee"].get("path") or ""
+        if p.endswith("::contains") and "ops::Range" in p:
+            if "RangeInclusive" in p:
+                good += 1
+            else:
+                bad.append("%s at %s" % (p.split("::<")[0].split("::")[-1] + "::contains", b.loc(t)))
+    for tb, fb, op, x, y, sw in guards.branch_conditions(b, prov):
+        for z, o in ((x, op), (y, guards.CMP_FLIP.get(op))):
+            if any(w[0] == "field" and str(w[2]).startswith("filter_range_") for w in sym.walk(z)):
+                # z is a bound: coordinate (the other side) compared with it
+                if o in ("Lt", "Gt"):
+                    bad.append("strict comparison with %s" % sym.show(sym.strip(z))[-40:])
+                elif o in ("Le", "Ge"):
+                    good += 1
+    if bad:
+        run.fail(rule, "condition-range", "ConditionTable::matches excludes an end of the filter range (%s): a coordinate equal to the bound does not select the "
+                 "feature variation" % "; ".join(bad), "%s:%s" % (b.file, b.line))
+    elif good:
+        run.ok(rule, "the filter range is tested inclusively")
+    else:
+        run.anchor_missing(rule, "range test in ConditionTable::matches")
+
+
 def check(run, fx, tier, floors=True):
+    if floors or fx.body("layout::ConditionTable::matches") is not None:
+        t04_cond(run, fx)
     import speclayout
     speclayout.rule_layouts(run, fx, "T04-LAYOUT", ["layout"], floors)
     speclayout.rule_records(run, fx, "T04-REC", ['layout'], floors)
